@@ -90,6 +90,9 @@ DiskTotal(i) == CHOOSE j \in Slots : SlotSeq[j].g = "disk" /\ SlotSeq[j].k = Slo
 (* one operation twice and names only one of the tasks), in either order,   *)
 (* and for records without a task name (before Rally 0.8.0: task = the      *)
 (* operation name).  t<e> = "" means: the record has no "task" key.         *)
+(* The spelling of the names (ASCII or not) and the locale of the process   *)
+(* that compares are inputs of the harness only: nothing here depends on    *)
+(* them ("any tasks").                                                      *)
 (***************************************************************************)
 Nm(t1, o1, t2, o2, rev) == [t1 |-> t1, o1 |-> o1, t2 |-> t2, o2 |-> o2, rev |-> rev]
 NamingSeq == << Nm("t1", "op1", "t2", "op2", FALSE),    \* 0 plain
